@@ -6,6 +6,6 @@ CONSTANTS
   Space = "late"
   Canonical = FALSE
   Deviations = {}
-INVARIANTS  TypeOK PhaseBarrier DepOrder SetOrder CycleReported NoFinalizeAfterError AllPhasesForAll CompleteBeforeError ErrorsTogether OkMeansNoErrors LateRootsRun
+INVARIANTS  TypeOK RunReturns PhaseBarrier DepOrder SetOrder CycleReported NoFinalizeAfterError AllPhasesForAll CompleteBeforeError ErrorsTogether OkMeansNoErrors LateRootsRun
 PROPERTY Terminates
 CHECK_DEADLOCK FALSE
